@@ -48,6 +48,8 @@ class IntermediateCodeGen(AbstractCodeGen):
     baseTypes = ['Integer', 'Integer32', 'Bits', 'ObjectIdentifier', 'OctetString']
 
     SMI_TYPES = {
+        'Counter': 'Counter32',  # RFC1065-SMI, RFC1155-SMI -> SNMPv2-SMI
+        'Gauge': 'Gauge32',  # RFC1065-SMI, RFC1155-SMI -> SNMPv2-SMI
         'NetworkAddress': 'IpAddress',  # RFC1065-SMI, RFC1155-SMI -> SNMPv2-SMI
         'nullSpecific': 'zeroDotZero',  # RFC1158-MIB -> SNMPv2-SMI
         'ipRoutingTable': 'ipRouteTable',  # RFC1158-MIB -> RFC1213-MIB
